@@ -339,6 +339,34 @@ static void pd_case(uint64_t idx, void *ctx)
     mc_nontrivial();
     mc_outcome((uint64_t) d);
 }
+/* ------------------------------------------------------------------ %dirscan() lists what stat() calls a regular file, whatever kind of directory entry leads to it */
+static const char *DK_NAME[6] = { "reg", "sub", "lnk", "lnkdir", "dangling", "fifo" };
+static void dk_desc(uint64_t idx, void *ctx, char *b, size_t n) { (void) ctx; size_t k = (size_t) snprintf(b, n, "%%dirscan() of a directory holding {"); for (int i = 0; i < 6; i++) if (idx >> i & 1) k += (size_t) snprintf(b + k, n - k, " %s", DK_NAME[i]); snprintf(b + k, n - k, " } (regular file, subdirectory, symbolic link to a regular file, to a directory, to nothing, named pipe)"); }
+static void dk_case(uint64_t idx, void *ctx)
+{
+    (void) ctx; const char *shape = "directory entries of several kinds"; mc_set_shape(shape);
+    char dir[400], p[700], t[700]; snprintf(dir, sizeof dir, "%s/dk%u_%d", scratch(), (unsigned) idx, (int) getpid()); mkdir(dir, 0700);
+    snprintf(t, sizeof t, "%s/f", g_odir);
+    for (int i = 0; i < 6; i++) if (idx >> i & 1) {
+        snprintf(p, sizeof p, "%s/%s", dir, DK_NAME[i]);
+        switch (i) { case 0: write_file(p, "x", 1); break; case 1: mkdir(p, 0700); break; case 2: if (symlink(t, p)) return; break; case 3: if (symlink(g_edir, p)) return; break; case 4: if (symlink("/nonexistent/verif", p)) return; break; case 5: if (mkfifo(p, 0600)) return; break; }
+    }
+    char *in = malloc(CONFIG_BUFF); snprintf(in, CONFIG_BUFF, "[%%dirscan(%s)]", dir);
+    char *k1; char *r = expand_in(in, CONFIG_BUFF, 0xA5, &k1);
+    int want_reg = (int) (idx & 1), want_lnk = (int) (idx >> 2 & 1);
+    if (!r) FAIL("builtin_dirscan", "model:refused", shape, "returned NULL");
+    else {
+        int got_reg = strstr(r, "reg ") != NULL, got_lnk = strstr(r, "lnk ") != NULL; size_t want_len = 2 + (size_t) want_reg * 4 + (size_t) want_lnk * 4;
+        if (got_reg != want_reg || got_lnk != want_lnk || strlen(r) != want_len || r[0] != '[' || r[strlen(r) - 1] != ']')
+            FAIL("builtin_dirscan", "model:value", shape, "listing \"%.80s\": expected exactly the entries that are regular files to stat()%s%s", r, want_reg ? " reg" : "", want_lnk ? " lnk" : "");
+    }
+    uint64_t rl = r ? strlen(r) : 0;
+    free(k1); free(in);
+    for (int i = 0; i < 6; i++) { snprintf(p, sizeof p, "%s/%s", dir, DK_NAME[i]); if (i == 1) rmdir(p); else unlink(p); }
+    rmdir(dir);
+    mc_nontrivial();
+    mc_outcome(rl);
+}
 int main(int argc, char **argv)
 {
     mc_init("C10", argc, argv);
@@ -361,6 +389,7 @@ int main(int argc, char **argv)
         for (g_n = 0; g_n <= N; g_n++) if (!mc_e2_level("expand", g_n, mc_words_of_len(NFRAG, g_n) * 3, a_case, a_desc, NULL)) break;
         mc_e2_level("limit", 1, (uint64_t) NLFRAG * 14 * 2, l_case, l_desc, NULL);
         mc_e2_level("paren_depth", 513, (uint64_t) NPD * 2, pd_case, pd_desc, NULL);
+        mc_e2_level("dirscan_entry_kinds", 6, 64, dk_case, dk_desc, NULL);
         mc_e2_level("long_command_output", 140000, (uint64_t) NBIGOUT * 2, bo_case, bo_desc, NULL);
         spifconf_free_subsystem();
     }
